@@ -164,8 +164,10 @@ func (E *Engine) doCall(st *State, in ssa.Instruction, cc *ssa.CallCommon, res s
 	var args []*Val
 	if cc.IsInvoke() {
 		recv := E.val(st, cc.Value)
-		E.oblige(st, "nil", E.site(in), not(eq(recv.F[0].S, "0")), "interface receiver is not nil", E.pos(in), nil)
-		st.assume(not(eq(recv.F[0].S, "0")))
+		if recv.F != nil {
+			E.oblige(st, "nil", E.site(in), not(eq(recv.F[0].S, "0")), "interface receiver is not nil", E.pos(in), nil)
+			st.assume(not(eq(recv.F[0].S, "0")))
+		}
 		args = append(args, recv)
 		for _, a := range cc.Args {
 			args = append(args, E.val(st, a))
@@ -693,6 +695,9 @@ func (E *Engine) doReturn(st *State, in *ssa.Return) {
 			}
 		}
 	}
+	for _, r := range rs {
+		E.checkTypeInvs(st, in, r, "returned value")
+	}
 	for i, cl := range c.spec.Ensures {
 		ev := &cenv{E: E, st: st, vars: rvars, heap: st.heap, oldHeap: c.entryHeap, oldVars: c.params, oldAlloc: c.entryAlloc, ctx: cl.Ctx, fc: c, goal: true}
 		f := ev.evalBool(cl.Expr)
@@ -733,7 +738,7 @@ func (E *Engine) frameCheck(st *State, in ssa.Instruction) {
 		}
 	}
 	for _, comp := range comps {
-		if whole[comp] {
+		if whole[comp] || E.sharedComp(comp) {
 			continue
 		}
 		sortS := c.compSort[comp]
